@@ -17,3 +17,16 @@ package schema
 //@   ensures single-key-values: len(foreignKeys) == 1 ==> forall(k, 0, len(foreignValues), result1[k] == foreignValues[k][0])
 //@   ensures single-key-column: len(foreignKeys) == 1 ==> result0 == clause.Column{Table: table, Name: foreignKeys[0]}
 //@   ensures composite-key-rows: len(foreignKeys) != 1 ==> forall(k, 0, len(foreignValues), result1[k] == foreignValues[k])
+
+//@ # ---------- C03: a scan holder never keeps the serializer instance it has just handed to a record ----------
+//@ # The *serializer holders are pooled and reused for later rows. After a successful Scan the record may hold the
+//@ # holder's Serializer object itself (field type == serializer type), so the holder must get a newly allocated
+//@ # instance before it goes back to the pool; otherwise later rows overwrite what earlier records loaded.
+//@ ghost newInstances lastNewPtr
+//@ event call reflect.New
+//@   in schema.(*Field).setupValuerAndSetter$*
+//@   do newInstances = newInstances + 1
+//@   do lastNewPtr = result.ptr
+//@ func (*Field).setupValuerAndSetter${invoke:SerializerInterface.Scan}
+//@   tags C03
+//@   ensures scanned-holder-gets-new-instance: is(v, *serializer) && old(v.(*serializer).fieldValue) == nil && result == nil ==> newInstances == old(newInstances) + 1 && boxof(v.(*serializer).Serializer) == uf("ifaceOfValue", lastNewPtr)
